@@ -200,7 +200,8 @@ impl Exec {
         // model term (measured on the probe before the real call)
         let mut probe_step_failed = false;
         let term: Option<String> = match e {
-            Ev::Swap { .. } | Ev::Loan { .. } | Ev::Stray { .. } => None,
+            Ev::Swap { .. } | Ev::Loan { .. } => None,
+            Ev::Stray { amount } => Some(format!("PStray {}", amount)),
             Ev::Fee { asset, amount } => Some(format!("PCollect true [({}, {})]", asset, amount)),
             Ev::Config { admin, active, rate, dao } => Some(format!("PConfig {} {} {} {}", coqbool(*admin),
                 active.map(|b| format!("(Some {})", coqbool(b))).unwrap_or("None".into()), rate.map(|r| format!("(Some {})", r)).unwrap_or("None".into()),
@@ -226,16 +227,14 @@ impl Exec {
                 Some(format!("PNewEpoch (mkFeeds {} {} {} {} {})", coqbool(ok1 && ok2), transfers_term(&b0, &b1), transfers_term(&b1, &b2), assets_term(&v1), assets_term(&v2)))
             }
         };
-        let mut before = snap(&self.w);
-        before.dist -= self.stray;
+        let before = snap(&self.w);
         let r = apply(&mut self.w, t, e);
         self.events.push((t, e.clone()));
-        let mut after = snap(&self.w);
+        let after = snap(&self.w);
         if let (Ev::Stray { amount }, Outcome::Ok(_)) = (e, &r) { self.stray += *amount; }
-        after.dist -= self.stray;
         let replay = self.replay_json();
         let ok = matches!(r, Outcome::Ok(_));
-        let kind = match e { Ev::Swap { .. } => "env:swap", Ev::Loan { .. } => "env:loan", Ev::Stray { .. } => "env:stray_transfer_to_distributor", Ev::Fee { .. } => "fee", Ev::Config { .. } => "config", Ev::Collect { .. } => "collect",
+        let kind = match e { Ev::Swap { .. } => "env:swap", Ev::Loan { .. } => "env:loan", Ev::Stray { .. } => "plain_transfer_to_distributor", Ev::Fee { .. } => "fee", Ev::Config { .. } => "config", Ev::Collect { .. } => "collect",
                              Ev::Aggregate { .. } => "aggregate", Ev::ForwardDirect { .. } => "forward_direct", Ev::NewEpoch { .. } => "new_epoch" };
         out.count(&format!("{}:{}", kind, if ok { "ok" } else { "rejected" }));
         // ---- the property's predicates on the implementation
@@ -307,8 +306,16 @@ impl Exec {
                     if after.coll[a] != 0 { self.n_left += 1; }
                 }
             }
+            Ev::Stray { amount } if ok => {
+                let mut b = before.clone(); b.dist += *amount;
+                if b != after { out.monitor_fail("C10", "a plain transfer to the distributor changed more than the distributor's balance", replay.clone()); }
+            }
             _ => {}
         }
+        // the distributor holds exactly what its epochs still account for plus what plain transfers added (Coq: C10_distributor_solvent / C09)
+        { let sum_av: u128 = after.epochs.iter().map(|e| nz(e.2)).sum();
+          out.monitor_evals += 1;
+          if after.dist != sum_av + self.stray { out.monitor_fail("C10", &format!("the distributor holds {} but its epochs' available amounts sum to {} and plain transfers added {}", after.dist, sum_av, self.stray), replay.clone()); } }
         if let Some(term) = term {
             self.terms.push(format!("({}, {})", t, term));
             let mut o = obs(&r, |_| vec![]);
